@@ -17,6 +17,13 @@ theorem guards_present :
     ∧ getInstrumentNeg = true ∧ getInstrumentMod = true := by
   decide
 
+/-- the common load path (load.c, load_helpers.c, scan.c, loaders/common.c, sample.c, iff.c) owns no
+writable process-wide data — no file-scope variable, no function-scope `static` scratch table: what one
+load computes (entry points, scan tables, …) can never leak into a load running in another context.
+(All six objects were found and inspected.) -/
+theorem loadPath_no_statics : loadPathStatics = [] ∧ loadPathObjects.length = 6 := by
+  decide
+
 /-- the functions that use a sub-instrument's `sid` as an index (or store it as the channel's
 sample) without a range test.  They rely on the loaders' `sidsOK`. -/
 def allowedTrusted : List (String × String) :=
